@@ -27,8 +27,12 @@ QUERIES = ["//*", "/*", "extra", "//*/*", "//r1", "//*[\"${VA}\" == \"1\"]", "/r
 
 
 def plan(tier, seed):
-    n = 24 if tier == "quick" else 1500
-    return [{"seed": common.subseed(seed, "c04", i), "edits": 6 if tier == "quick" else 10} for i in range(n)]
+    n = 20 if tier == "quick" else 1500
+    cases = [{"seed": common.subseed(seed, "c04", i), "edits": 6 if tier == "quick" else 10} for i in range(n)]
+    scripts = [["include", "include", "any", "include", "include"], ["cfg", "cfg", "cfg", "any", "cfg"], ["include", "cfg", "include", "cfg", "include", "cfg"]]
+    for i in range(6 if tier == "quick" else 150):
+        cases.append({"seed": common.subseed(seed, "c04d", i), "edits": 6, "script": scripts[i % 3], "_first": i < 6})
+    return cases
 
 
 def child_dump(proj, model, cfgs, nomemo, pkgck, sandbox):
@@ -108,9 +112,12 @@ def biased_model(rnd):
     return m
 
 
-def extra_config(rnd, model):
+def extra_config(rnd, model, force_filter=False):
     """content of an optional include / -c file: settings that influence the graph through different channels"""
     parts = []
+    if force_filter:
+        roots = [n for n, r in model["recipes"].items() if r.get("root") and not r.get("multi")]
+        return ("rootFilter:\n  - \"!%s\"\n" % rnd.choice(roots)) if roots else "alias:\n  extra: \"//*\"\n"
     if rnd.random() < 0.5:
         parts.append("environment:\n  %s: \"%s\"\n" % (rnd.choice(projgen.VARNAMES), rnd.choice(projgen.VALS)))
     roots = [n for n, r in model["recipes"].items() if r.get("root") and not r.get("multi")]
@@ -141,6 +148,11 @@ def run_case(case):
         for step in range(case["edits"] + 1):
             if step:
                 k = rnd.random()
+                forced = (case.get("script") or [])[step - 1:step]
+                if forced:
+                    # directed histories: a config file that influences the graph outside the environment appears / disappears / is
+                    # switched on and off while no other file changes (nothing is parsed freshly in the following evaluation)
+                    k = {"include": 0.6, "cfg": 0.8, "any": k}[forced[0]]
                 if k < 0.15:
                     ed = edits.apply_edit(model, rnd, ["inc_mod", "inc_mod", "class_tok", "tok"])
                 elif k < 0.55:
@@ -150,15 +162,15 @@ def run_case(case):
                     inc = model.setdefault("files", {})
                     dflt = model.setdefault("default", {})
                     dflt["include"] = ["local"]          # optional include: local.yaml may be absent
-                    if "local.yaml" in inc and rnd.random() < 0.5:
+                    if "local.yaml" in inc and (rnd.random() < 0.5 or forced):
                         del inc["local.yaml"]; ed = ("include-file-removed",)
                     else:
-                        inc["local.yaml"] = extra_config(rnd, model)
+                        inc["local.yaml"] = extra_config(rnd, model, bool(forced))
                         ed = ("include-file-written",)
                 elif k < 0.85:
                     inc = model.setdefault("files", {})
                     if "cfg.yaml" not in inc:
-                        inc["cfg.yaml"] = extra_config(rnd, model)
+                        inc["cfg.yaml"] = extra_config(rnd, model, bool(forced))
                     cfg_on = not cfg_on
                     ed = ("-c cfg", cfg_on)
                 else:
@@ -167,14 +179,35 @@ def run_case(case):
                 # apply to the warm directory: rewrite recipes etc. in place (new inodes), remove vanished files
                 tmp = os.path.join(base, "gen"); shutil.rmtree(tmp, ignore_errors=True)
                 projgen.write_project(tmp, model)
+                # only files whose content changed are touched (new inode); unchanged files keep their stat data, so that the
+                # following evaluation really parses nothing but the edited files (an edit that only removes a file parses nothing)
+                def sync(rel_dir):
+                    src_d, dst_d = os.path.join(tmp, rel_dir), os.path.join(W, rel_dir)
+                    want = {}
+                    if os.path.isdir(src_d):
+                        for dp, dn, fn in os.walk(src_d):
+                            for f in fn:
+                                want[os.path.relpath(os.path.join(dp, f), src_d)] = os.path.join(dp, f)
+                    have = set()
+                    if os.path.isdir(dst_d):
+                        for dp, dn, fn in os.walk(dst_d):
+                            for f in fn:
+                                have.add(os.path.relpath(os.path.join(dp, f), dst_d))
+                    for rel in have - set(want):
+                        os.unlink(os.path.join(dst_d, rel))
+                    for rel, srcf in want.items():
+                        dstf = os.path.join(dst_d, rel)
+                        c_ = open(srcf).read()
+                        if not os.path.exists(dstf) or open(dstf).read() != c_:
+                            os.makedirs(os.path.dirname(dstf), exist_ok=True)
+                            rewrite(dstf, c_)
                 for sub in ("recipes", "classes"):
-                    shutil.rmtree(os.path.join(W, sub), ignore_errors=True)
-                    if os.path.isdir(os.path.join(tmp, sub)):
-                        shutil.copytree(os.path.join(tmp, sub), os.path.join(W, sub))
+                    sync(sub)
                 for f in ("config.yaml", "default.yaml", "local.yaml", "cfg.yaml"):
                     src = os.path.join(tmp, f)
                     if os.path.exists(src):
-                        rewrite(os.path.join(W, f), open(src).read())
+                        if not os.path.exists(os.path.join(W, f)) or open(os.path.join(W, f)).read() != open(src).read():
+                            rewrite(os.path.join(W, f), open(src).read())
                     elif os.path.exists(os.path.join(W, f)):
                         os.unlink(os.path.join(W, f))
             cfgs = ["cfg"] if cfg_on else []
